@@ -569,6 +569,10 @@ impl<H: Hal, T: Transport> VirtIOSound<H, T> {
                     tail = 0;
                 }
             }
+            #[cfg(feature = "verif-hooks")]
+            crate::verif_hooks::fire(crate::verif_hooks::Point::Spin(
+                crate::verif_hooks::SpinSite::SoundPcmXfer,
+            ));
             spin_loop();
         }
 
